@@ -46,10 +46,12 @@ Inductive step :=
 (* [CtxEnd dl] (constructor below, after [Cancel]) is the non-terminal form of [Cancel dl]: the
    client's context ends in the same way, but the handler then goes on with the actions that follow
    in the list (SetH / SendH / SetT, S2C = a SendMsg that fails, RecvEOF = a RecvMsg that fails) up
-   to its return [Ret].  What SetHeader / SendHeader / SendMsg return to the handler is not part of
-   the transcript: on a real connection it depends on whether the stream reset has been processed
-   yet.  What a RecvMsg returns is (the client not having half-closed, nothing can be waiting to be
-   received: the context's end is the only thing to report, on both transports). *)
+   to its return [Ret].  The handler has seen its context end ([SDone]); from then on its SendMsg and
+   SendHeader fail and its RecvMsg fails with the context's error (the client not having half-closed,
+   nothing can be waiting to be received), on both transports -- on a real server as soon as the
+   transport has marked the stream done, an instant after it cancelled the handler's context (the
+   harness repeats a call that still succeeds there).  What SetHeader returns is not part of the
+   transcript: the wrapper accepts metadata that nobody will see, a real server refuses it. *)
 
 (* the calling context: still live, cancelled, or past its deadline; ctx.Err() tells the last two apart *)
 Inductive ctxend := CtxLive | CtxCanceled | CtxExpired.
@@ -214,13 +216,13 @@ Definition w_step (fx : fixes) (sh : shape) (r : wrun) (st : step) : wrun * (lis
       else (r, ([CSent true], [SGot m]))
   | S2C m =>
       let s1 := w_sendHeaderIfNeeded fx s in
-      if w_gone s then (mkWR (w_server_send_done fx s) (wr_resp r) false, ([], []))   (* SendMsg fails *)
+      if w_gone s then (mkWR (w_server_send_done fx s) (wr_resp r) false, ([], [SSent false]))   (* SendMsg fails: doneErr *)
       else if w_done s then (r, stuck)
       else (mkWR s1 (negb (ss sh)) false, ([CGot m], [SSent true]))
   | SetH h => let '(s1, ok) := w_SetHeader fx h s in
               (mkWR s1 (wr_resp r) false, ([], if w_gone s then [] else [SSetH ok]))
   | SendH h => let '(s1, ok) := w_SendHeader fx h s in
-               (mkWR s1 (wr_resp r) false, ([], if w_gone s then [] else [SSendH ok]))
+               (mkWR s1 (wr_resp r) false, ([], [SSendH ok]))
   | SetT t => (mkWR (w_SetTrailer t s) (wr_resp r) false, ([], []))
   | CloseSend => (mkWR (set_half s) (wr_resp r) false, ([CClosed], []))
   | RecvEOF =>
